@@ -38,7 +38,12 @@ K2 = [0, 1, 2]
 VALS = {'v_int': 'integer', 'v_str': 'string', 'v_num': 'number', 'v_date': 'date', 'v_arr': 'array', 'v_obj': 'object'}
 
 
-def val(t):
+def val(t, name=None):
+    if name == 'v_int' and t == 'string':
+        # a text column that used to be an integer column: numeric-looking text has to stay text
+        return st.one_of(st.none(), st.sampled_from(['007', '1e3', 'x', '12', ' 5']))
+    if name == 'v_str' and t == 'integer':
+        return st.one_of(st.none(), st.integers(-5, 5))
     if t == 'integer':
         return st.one_of(st.none(), st.integers(-5, 5), st.just(2 ** 40))
     if t == 'string':
@@ -66,9 +71,15 @@ def cases_(draw):
     n = draw(st.integers(1, 5))
     dumps = []
     keys_in_table = set()
+    cur_types = {v: VALS[v] for v in vnames}
     for di in range(n):
         modes = ['rewrite', 'append', 'update', 'update'] if di else ['rewrite', 'append', 'update', None]
         mode = draw(st.sampled_from(modes))
+        if di and mode == 'rewrite' and draw(st.booleans()):
+            # a rewrite may bring a changed schema: same column names, another type for one column
+            for v in ('v_int', 'v_str'):
+                if v in cur_types and draw(st.booleans()):
+                    cur_types[v] = {'integer': 'string', 'string': 'integer'}[cur_types[v]]
         ukeys = None
         if mode == 'update':
             if rid_class:
@@ -105,11 +116,11 @@ def cases_(draw):
                 row['rid'] = next_rid[0]
                 next_rid[0] += 1
             for v in vnames:
-                row[v] = draw(val(VALS[v]))
+                row[v] = draw(val(cur_types[v], v))
             rows.append(row)
         for r in rows:
             keys_in_table.add((r['k1'], r['k2']))
-        dumps.append({'mode': mode, 'update_keys': ukeys, 'rows': rows,
+        dumps.append({'mode': mode, 'update_keys': ukeys, 'rows': rows, 'types': dict(cur_types),
                       'batch': draw(st.sampled_from([None, 1, 2, 1000])), 'bloom': draw(st.sampled_from([None, True, False])),
                       'updated_column': draw(st.booleans())})
     return {'pk': pk, 'fields': fields, 'dumps': dumps}
@@ -130,12 +141,12 @@ def canon_row(r):
     return json.dumps(out, sort_keys=True, default=str)
 
 
-def read_table(engine_url, fields):
+def read_table(engine_url, fields, table='t1'):
     import sqlalchemy
     eng = sqlalchemy.create_engine(engine_url)
     try:
         with eng.connect() as conn:
-            res = conn.execute(sqlalchemy.text('SELECT * FROM "t1"'))
+            res = conn.execute(sqlalchemy.text('SELECT * FROM "%s"' % table))
             cols = list(res.keys())
             rows = [dict(zip(cols, r)) for r in res]
     finally:
@@ -163,12 +174,32 @@ def check(case, ctx):
     res = {'name': 'res1', 'fields': fields, 'rows': []}
     if case['pk']:
         res['pk'] = case['pk']
-    desc = gen.descriptor_of([res])
     model = []
     classes = ['pk:%s' % ('none' if not case['pk'] else len(case['pk']))]
     both = False
+    # other tables of the same database whose names extend the target's name, and a resource of the same package that is
+    # not mapped to any table: none of them is touched by the dumps into "t1"
+    other_fields = [{'name': 'q', 'type': 'integer'}, {'name': 's', 'type': 'string'}]
+    other_rows = [{'q': 1, 's': 'keep'}, {'q': 2, 's': None}, {'q': 3, 's': 'é'}]
+    other = {'name': 'other', 'fields': other_fields, 'rows': other_rows}
+    try:
+        with quiet():
+            step = dataflows.dump_to_sql({'t1_archive': {'resource-name': 'arch'}, 't10': {'resource-name': 'ten'}}, engine=url)
+            Flow(FeedStep(gen.descriptor_of([dict(other, name='arch'), dict(other, name='ten')]),
+                          [copy.deepcopy(other_rows), copy.deepcopy(other_rows)]), step).process()
+            step.engine.dispose()
+    except Exception as e:
+        raise unexpected(e, 'setting up the neighbouring tables')
     for di, dump in enumerate(case['dumps']):
         mode = dump['mode']
+        if dump.get('types'):
+            fields = [dict(f, type=dump['types'].get(f['name'], f['type'])) for f in case['fields']]
+            if fields != case['fields']:
+                classes.append('rewrite-with-retyped-column')
+        res = dict(res, fields=fields)
+        other_first = bool(di % 2)
+        pkg_ = [other, res] if other_first else [res, other]
+        desc = gen.descriptor_of(pkg_)
         conf = {'resource-name': 'res1'}
         if mode is not None:
             conf['mode'] = mode
@@ -182,13 +213,25 @@ def check(case, ctx):
         if dump['updated_column']:
             kw['updated_column'] = '_upd'
         rows_in = copy.deepcopy(dump['rows'])
+        tabs_ = [copy.deepcopy(other_rows), rows_in] if other_first else [rows_in, copy.deepcopy(other_rows)]
         try:
             with quiet():
                 step = dataflows.dump_to_sql({'t1': conf}, engine=url, **kw)
-                out, dp, _ = Flow(FeedStep(desc, [rows_in]), step).results(on_error=None)
+                out, dp, _ = Flow(FeedStep(desc, tabs_), step).results(on_error=None)
                 step.engine.dispose()
         except Exception as e:
             raise unexpected(e, 'dump %d (%s)' % (di, mode))
+        if other_first:
+            out = [out[1], out[0]]
+        if len(out) != 2 or out[1] != other_rows:
+            raise Violation('downstream:unmapped-resource-changed', {'dump': di, 'got': out[1:] and out[1][:3]})
+        for tname in ('t1_archive', 't10'):
+            try:
+                nb = read_table(url, other_fields, tname)
+            except Exception as e:
+                raise Violation('neighbouring-table-lost', {'table': tname, 'dump': di, 'mode': mode, 'error': repr(e)[:200]})
+            if sorted(canon_row(r) for r in nb) != sorted(canon_row(r) for r in other_rows):
+                raise Violation('neighbouring-table-changed', {'table': tname, 'dump': di, 'mode': mode, 'rows': len(nb)})
         # ---- model
         eff = mode or 'rewrite'
         flags = []
